@@ -11,10 +11,11 @@ import (
 )
 
 type CaseC02 struct {
-	Type string  `json:"type"`
-	Dir  string  `json:"dir"` // enc: value -> bytes ; dec: schema-valid wire bytes -> value
-	V    *Value  `json:"v"`
-	Pre  []PreOp `json:"pre,omitempty"` // prior calls in the same process
+	Type  string  `json:"type"`
+	Dir   string  `json:"dir"` // enc: value -> bytes ; dec: schema-valid wire bytes -> value
+	V     *Value  `json:"v"`
+	Pre   []PreOp `json:"pre,omitempty"`   // prior calls in the same process
+	Prior *Value  `json:"prior,omitempty"` // dec directions: the receiver has decoded this other message of the type before
 }
 
 func oracleC02(c *CaseC02) *Failure {
@@ -48,7 +49,7 @@ func oracleC02(c *CaseC02) *Failure {
 		if _, _, perr := Parse(c.Type, w); perr != ErrUnknownKey {
 			return nil // (the generated key happened to be registered after all, or the harness built something else)
 		}
-		got, _, err, pan := LibDecode(c.Type, w)
+		got, _, err, pan := LibDecodeInto(UsedReceiver(c.Type, c.Prior), c.Type, w)
 		if pan != nil {
 			return failf("C02/"+c.Type+"/decode-panic", "Decode panicked on an unregistered discriminator: %v", pan)
 		}
@@ -72,7 +73,7 @@ func oracleC02(c *CaseC02) *Failure {
 		Col.BrokenHarness("interpreter cannot parse its own rendering of " + c.Type)
 		return nil
 	}
-	got, rest, err, pan := LibDecode(c.Type, r.Bytes)
+	got, rest, err, pan := LibDecodeInto(UsedReceiver(c.Type, c.Prior), c.Type, r.Bytes)
 	if pan != nil {
 		return failf("C02/"+c.Type+"/decode-panic", "Decode panicked on a schema-valid message: %v", pan)
 	}
@@ -288,6 +289,11 @@ func rpC02(types []string) (out []RProp) {
 				pt := tb.TypeFor(tb.Order[rapid.IntRange(0, len(tb.Order)-1).Draw(rt, "part")])
 				v := holderWithKeyRT(rt, tb, key, true, pt)
 				c := &CaseC02{Type: tn, Dir: "dec-unknown-key", V: v}
+				if rapid.IntRange(0, 2).Draw(rt, "used") == 0 {
+					// a receiver that has decoded a message with a registered key before
+					c.Prior, _ = GenValue(rt, tn, GenOpts{Mode: Canonical, MaxList: 20})
+					Col.Class("unknown-key-into-a-used-receiver", 1)
+				}
 				Col.Case(Hash64([]byte(tn), []byte("unk"), []byte(key)), true, "dir:dec-unknown-key", "module:"+ts.Module)
 				Col.Program(tn)
 				return c
@@ -299,6 +305,10 @@ func rpC02(types []string) (out []RProp) {
 			c := &CaseC02{Type: tn, Dir: "dec", V: v, Pre: pre}
 			if len(pre) > 0 {
 				Col.Class("after-prior-calls", 1)
+			}
+			if hasVariableParts(tn) && rapid.IntRange(0, 3).Draw(rt, "used") == 0 {
+				c.Prior, _ = GenValue(rt, tn, GenOpts{Mode: Canonical, MaxList: 40})
+				Col.Class("decoded-into-a-receiver-that-held-another-message", 1)
 			}
 			c02Record(c, ft)
 			return c
